@@ -4,14 +4,14 @@ CONSTANTS
   KeyTab <- MCKeyTab
   CurSeq <- MCCurSeq
   Special <- MCSpecial
-  Ledgers <- LedgersCover
+  Ledgers = {}
   OpenArgs <- Open05
   CloseArgs <- Close05
   ClearArgs = {TRUE, FALSE}
   Filters <- FNone
   Order <- OrderStated
   CompileMode = "stated"
-INIT Init
+INIT InitCover
 NEXT Next
 INVARIANTS KeepInv BalanceSheetInv IncomeInv EquityInv TxBalanceInv LayoutInv FilterInv CompileInv SortedInv ExpectInv
 CHECK_DEADLOCK FALSE
